@@ -1,3 +1,104 @@
-/-! # C15 — (stub: property theorems go here; see docs/BUILDING.md) -/
+import PtVerif.Proofs.DecayTime
+/-!
+# C15 — `decay_time(target)` returns the time at which total activity reaches the target
+
+Model: `decayTime` / `decayTimeOfData` / `findRoot` / `calcActivation` of
+`PtVerif.Model.Activation`, the code of `Sample.decay_time`, `find_root` and
+`Sample.calculate_activation` **with `fixes/activation-2-decay-time.patch` applied** (the solve
+works from the activity at removal that `calculate_activation` records; `f(0) <= 0` early exit;
+`-La*Ia` derivative; `max(t, 0.)`).  Tied to the source by `harness/ptv/props/C15.py`.
+
+* "returns t ≥ 0 at which the summed activity is within 0.1 % of the target":
+  `accepted_is_within_tolerance`, `accepted_is_within_tolerance_of_documented_sum`
+* "returns 0 exactly when the activity at removal is already at or below the target":
+  `zero_iff_already_below` (⇐ exactly; ⇒ up to the 0.1 % band, which the first clause allows),
+  `pos_of_clearly_above`
+* "RuntimeError rather than returning a time": `raises_otherwise` (an `ok` outcome passed the
+  acceptance test; for positive products and target the *only* possible exception is RuntimeError)
+* "does not depend on which rest times were requested": `independent_of_rest_times`
+
+Partial: in the corner `target < A(0) ≤ 1.001·target` the function may return `0` (it is within
+tolerance there); floating-point rounding of the Newton iteration is compared, not proved.
+-/
 namespace PtVerif.C15
+open PtModel.Activation
+
+/-- a returned time is ≥ 0 and is either the early exit (0, already at or below the target)
+    or a time at which `Σ Aᵢ·exp(-λᵢ t)` is within 0.1 % of the target -/
+theorem accepted_is_within_tolerance (data : List (ℝ × ℝ)) (target t : ℝ)
+    (hd : ∀ d ∈ data, 0 ≤ d.1 ∧ 0 ≤ d.2) (htarget : 0 < target)
+    (h : decayTimeOfData data target = .ok t) :
+    0 ≤ t ∧ ((total data 0 ≤ target ∧ t = 0) ∨ |total data t - target| ≤ target / 1000) :=
+  decayTimeOfData_accepted data target t hd htarget h
+
+example : (∀ d ∈ [((3:ℝ), (1:ℝ)), (2, 0.5)], 0 ≤ d.1 ∧ 0 ≤ d.2) ∧ (0:ℝ) < 1 := by
+  constructor
+  · intro d hd; simp at hd; rcases hd with rfl | rfl <;> norm_num
+  · norm_num
+
+/-- the same in the documented form: from the recorded activities at removal `A_k ≥ 0` and the
+    tabulated half-lives `T_k > 0`, `Σ_k A_k·2^(-t/T_k)` at the returned time is within 0.1 % -/
+theorem accepted_is_within_tolerance_of_documented_sum (c : Consts ℝ) (hln2 : c.ln2 = Real.log 2)
+    (thalfOf : Nat → ℝ) (removal : List (Nat × ℝ)) (target t : ℝ)
+    (hth : ∀ ka ∈ removal, 0 < thalfOf ka.1) (hnn : ∀ ka ∈ removal, 0 ≤ ka.2) (htarget : 0 < target)
+    (h : decayTime c thalfOf removal target = .ok t) :
+    0 ≤ t ∧ ((specTotal thalfOf removal 0 ≤ target ∧ t = 0) ∨
+      |specTotal thalfOf removal t - target| ≤ target / 1000) := by
+  obtain ⟨data, hdata, hpos, htot⟩ := decayData_spec c hln2 thalfOf removal hth hnn
+  unfold decayTime at h
+  rw [hdata] at h
+  have := decayTimeOfData_accepted data target t (fun d hd => ⟨(hpos d hd).1.le, (hpos d hd).2.le⟩) htarget h
+  rwa [htot 0, htot t] at this
+
+/-- already at or below the target ⇒ exactly 0; and 0 is returned only if the activity at removal
+    is at most 1.001·target -/
+theorem zero_iff_already_below (data : List (ℝ × ℝ)) (target : ℝ)
+    (hd : ∀ d ∈ data, 0 ≤ d.1 ∧ 0 ≤ d.2) (htarget : 0 < target) :
+    (total data 0 ≤ target → decayTimeOfData data target = .ok 0) ∧
+    (decayTimeOfData data target = .ok 0 → total data 0 ≤ target * 1.001) :=
+  ⟨decayTimeOfData_zero_of_below data target, decayTimeOfData_zero_only_if data target hd htarget⟩
+
+/-- clearly above the target at removal ⇒ any returned time is strictly positive -/
+theorem pos_of_clearly_above (data : List (ℝ × ℝ)) (target t : ℝ)
+    (hd : ∀ d ∈ data, 0 ≤ d.1 ∧ 0 ≤ d.2) (htarget : 0 < target)
+    (habove : target * 1.001 < total data 0)
+    (h : decayTimeOfData data target = .ok t) : 0 < t :=
+  decayTimeOfData_pos data target t hd htarget habove h
+
+example : (1:ℝ) * 1.001 < total [((3:ℝ), (1:ℝ))] 0 := by
+  simp [total]; norm_num
+
+/-- for positive products and a positive target the outcome is a time or RuntimeError, nothing
+    else (no ZeroDivisionError, OverflowError, ValueError) -/
+theorem raises_otherwise (data : List (ℝ × ℝ)) (target : ℝ)
+    (hd : ∀ d ∈ data, 0 < d.1 ∧ 0 < d.2) (htarget : 0 < target) :
+    (∃ t, decayTimeOfData data target = .ok t) ∨ decayTimeOfData data target = .error .runtime :=
+  decayTimeOfData_raises_only_runtime data target hd htarget
+
+/-- … and a time that fails the 0.1 % test is never returned (other than the early-exit 0) -/
+theorem never_returns_unaccepted (data : List (ℝ × ℝ)) (target t : ℝ)
+    (hd : ∀ d ∈ data, 0 ≤ d.1 ∧ 0 ≤ d.2) (htarget : 0 < target)
+    (h : decayTimeOfData data target = .ok t) (hnot : target / 1000 < |total data t - target|) :
+    total data 0 ≤ target ∧ t = 0 :=
+  decayTimeOfData_never_returns_unaccepted data target t hd htarget h hnot
+
+/-- the products `decay_time` sees (`decayData`) are positive, as `raises_otherwise` needs -/
+theorem decay_data_is_positive (c : Consts ℝ) (hln2 : c.ln2 = Real.log 2) (thalfOf : Nat → ℝ)
+    (removal : List (Nat × ℝ)) (hth : ∀ ka ∈ removal, 0 < thalfOf ka.1) (hnn : ∀ ka ∈ removal, 0 ≤ ka.2) :
+    ∃ data, decayData c thalfOf removal = .ok data ∧ (∀ d ∈ data, 0 < d.1 ∧ 0 < d.2) ∧
+      ∀ t, total data t = specTotal thalfOf removal t :=
+  decayData_spec c hln2 thalfOf removal hth hnn
+
+/-- the answer does not depend on the rest times requested in `calculate_activation`: the list
+    `decay_time` reads is the same, hence so is everything computed from it -/
+theorem independent_of_rest_times (c : Consts ℝ) (rowsOf : Nat → Nat → List (Nat × Row ℝ))
+    (thalfOf : Nat → ℝ) (mass : ℝ) (env : Env ℝ) (T : ℝ) (rests rests' : List ℝ) (parts : List (PtModel.Activation.Part ℝ))
+    (tally : Tally ℝ) (target : ℝ)
+    (h : calcActivation c rowsOf mass env T rests parts = .ok tally) :
+    ∃ tally', calcActivation c rowsOf mass env T rests' parts = .ok tally' ∧
+      decayTime c thalfOf tally'.removal target = decayTime c thalfOf tally.removal target := by
+  obtain ⟨tally', h1, h2⟩ :=
+    calcActivation_removal_list_independent c rowsOf mass env T rests rests' parts tally h
+  exact ⟨tally', h1, by rw [h2]⟩
+
 end PtVerif.C15
